@@ -18,6 +18,7 @@ import Driver.C13
 import Driver.C15
 import Driver.C16
 import Driver.C11
+import Driver.C14
 
 open Driver
 
@@ -38,6 +39,7 @@ def dispatch (prop : String) (toks : List String) : String :=
   | "C15" => Driver.C15.handle toks
   | "C16" => Driver.C16.handle toks
   | "C11" => Driver.C11.handle toks
+  | "C14" => Driver.C14.handle toks
   | _ => "bad-prop"
 
 partial def loop (hin hout : IO.FS.Stream) : IO Unit := do
